@@ -1,6 +1,7 @@
 package engdkg
 
 import (
+	"context"
 	"fmt"
 	"math/rand"
 	"os"
@@ -28,6 +29,7 @@ type spec struct {
 }
 
 type result struct {
+	extra      []emit.MonitorFailure // failures found by a history itself (concurrent runs)
 	unreadable string
 	spec  spec
 	cases []*node
@@ -102,6 +104,10 @@ func runHistory(sp spec, tmp string) (res *result, err error) {
 		h.directedJoinerKeySwap()
 	case "d-timeout-abandon":
 		h.directedTimeoutAbandon()
+	case "d-concurrent":
+		h.directedConcurrent()
+	case "d-near-miss-address":
+		h.directedNearMissAddress()
 	case "gen":
 		for k := 0; k < 2+h.rng.Intn(2) && !h.cut; k++ {
 			h.attempt()
@@ -132,7 +138,7 @@ func runHistory(sp spec, tmp string) (res *result, err error) {
 	case "sweep":
 		h.sweepHistory()
 	}
-	res = &result{spec: sp, w: w, notes: h.notes, cut: h.cut}
+	res = &result{spec: sp, w: w, notes: h.notes, cut: h.cut, extra: h.extra}
 	for _, n := range w.nodes {
 		if len(n.steps) > 0 {
 			res.cases = append(res.cases, n)
@@ -302,6 +308,166 @@ func (h *hist) directedTimeoutAbandon() {
 	}
 }
 
+// ---------- a command and a packet at the same time on one node ----------
+
+// concurrentPair starts the operator command on node i, holds it right after it has LOADED the
+// state (gate in the store wrapper), delivers the packet from a second goroutine, gives it time to
+// run if nothing serialises it, then releases the command. It returns the result classes and the
+// states the process persisted meanwhile. The node's trace is not continued afterwards.
+func (h *hist) concurrentPair(i int, c *pdkg.DKGCommand, p *pdkg.GossipPacket) (clsCmd, clsPkt string, saved []string, ok bool) {
+	n := h.w.nodes[i]
+	k := len(n.gate.savedSince(0))
+	run := func(f func() error) chan string {
+		ch := make(chan string, 1)
+		go func() {
+			defer func() {
+				if r := recover(); r != nil {
+					ch <- "panic"
+				}
+			}()
+			ch <- classify(f())
+		}()
+		return ch
+	}
+	n.gate.arm()
+	ca := run(func() error { _, err := n.proc.Command(context.Background(), wireCmd(c)); return err })
+	select {
+	case <-n.gate.entered:
+	case <-time.After(3 * time.Second):
+		return "", "", nil, false
+	}
+	cb := run(func() error { _, err := n.proc.Packet(context.Background(), wirePkt(p)); return err })
+	pktDone := false
+	select {
+	case clsPkt = <-cb:
+		pktDone = true
+	case <-time.After(150 * time.Millisecond):
+	}
+	close(n.gate.release)
+	n.gate.release = make(chan struct{})
+	select {
+	case clsCmd = <-ca:
+	case <-time.After(5 * time.Second):
+		return "", "", nil, false
+	}
+	if !pktDone {
+		select {
+		case clsPkt = <-cb:
+		case <-time.After(5 * time.Second):
+			return "", "", nil, false
+		}
+	}
+	return clsCmd, clsPkt, n.gate.savedSince(k), true
+}
+
+// directedConcurrent: three followers in the same state; n1 gets {command, packet} concurrently, n2
+// the same two sequentially command-first, n3 packet-first. The property's own predicates: every
+// state n1 persisted is a legal step of the protocol table from the previous one (fall-back rule
+// included), and n1 ends, with the same answers, like ONE of the two sequential orders.
+func (h *hist) directedConcurrent() {
+	h.fabricate([]int{0, 1, 2, 3}, 3, uint32(1+h.rng.Intn(3)))
+	s := reshareSpec{leader: 0, remaining: []int{0, 1, 2, 3}, thr: 3}
+	_, prop := h.command(0, h.reshareCmd(s, ""), "cmd-reshare", "leader", false)
+	for _, i := range []int{1, 2, 3} {
+		h.packet(i, prop, "proposal", "leader")
+	}
+	variant := h.id % 3
+	cmdKind, pktKind := "accept", "abort"
+	switch variant {
+	case 1:
+		cmdKind = "reject"
+	case 2:
+		// followers have accepted; operator aborts while the leader's Execute arrives
+		for _, i := range []int{1, 2, 3} {
+			h.command(i, simpleCmd("accept"), "cmd-accept", "member", false)
+		}
+		cmdKind, pktKind = "abort", "execute"
+	}
+	if h.cut {
+		return
+	}
+	pkt := h.forged(1, pktKind, h.w.ids[0], h.w.ids[0])
+	startState := mustSnapshot(h.w.nodes[1]).cur.state
+	finState := finStr(mustSnapshot(h.w.nodes[1]).fin)
+	// sequential twins
+	sa, _ := h.command(2, simpleCmd(cmdKind), "cmd-"+cmdKind+" (sequential, first)", "member", false)
+	sb := h.packet(2, pkt, pktKind+" (sequential, second)", "leader")
+	tb := h.packet(3, pkt, pktKind+" (sequential, first)", "leader")
+	ta, _ := h.command(3, simpleCmd(cmdKind), "cmd-"+cmdKind+" (sequential, second)", "member", false)
+	if h.cut || sa == nil || sb == nil || ta == nil || tb == nil {
+		return
+	}
+	clsCmd, clsPkt, saved, ok := h.concurrentPair(1, simpleCmd(cmdKind), pkt)
+	if !ok {
+		h.notes = append(h.notes, "concurrent pair did not finish")
+		return
+	}
+	final := mustSnapshot(h.w.nodes[1])
+	in := map[string]interface{}{"history": h.id, "node": "n1", "start": startState + " (finished " + finState + ")",
+		"concurrent": []string{"cmd-" + cmdKind + " -> " + clsCmd, "pkt-" + pktKind + " from the leader, delivered between the command's load and save -> " + clsPkt},
+		"persisted": saved, "final": final.cur.state,
+		"sequential command-first (n2)": []string{sa.class, sb.class, sb.after.cur.state},
+		"sequential packet-first (n3)": []string{ta.class, tb.class, ta.after.cur.state}}
+	// (i) every persisted step is legal
+	prev := startState
+	for _, st := range saved {
+		base := prev
+		if specTerminal[base] {
+			base = "Complete" // the followers hold a finished record
+		}
+		if st != prev && !specEdge(base, st) {
+			h.extra = append(h.extra, emit.MonitorFailure{Class: "C08-command-and-packet-not-serialised",
+				What: fmt.Sprintf("concurrent command and packet: the node persisted %s after %s, which is not a legal transition", st, prev), Input: in})
+			break
+		}
+		prev = st
+	}
+	// (ii) the outcome is that of some sequential order
+	same := func(cmdCls, pktCls, state string) bool { return cmdCls == clsCmd && pktCls == clsPkt && state == final.cur.state }
+	if !same(sa.class, sb.class, sb.after.cur.state) && !same(ta.class, tb.class, ta.after.cur.state) {
+		h.extra = append(h.extra, emit.MonitorFailure{Class: "C08-command-and-packet-not-serialised",
+			What: "concurrent command and packet: answers and final state match neither sequential order of the two operations", Input: in})
+	}
+	h.cut = true
+}
+
+// near-miss sender addresses: a forger lists itself in Joining under the leader's address spelled
+// slightly differently (letter case, trailing dot), with its own validly self-signed key, signs with
+// that key and claims the variant as sender. The named leader never signed: must be refused.
+func (h *hist) directedNearMissAddress() {
+	h.fabricate([]int{0, 1, 2}, 2, uint32(1+h.rng.Intn(3)))
+	x, leader := h.attacker(), h.w.ids[0]
+	host, port, _ := strings.Cut(leader.part.Address, ":")
+	variants := []string{strings.ToUpper(host) + ":" + port, strings.ToUpper(host[:1]) + host[1:] + ":" + port, host + ".:" + port,
+		strings.Replace(host, "node", "nOde", 1) + ":" + port}
+	for _, target := range []int{1, 3} {
+		sp := mustSnapshot(h.w.nodes[1])
+		for _, v := range variants {
+			fake := &pdkg.Participant{Address: v, Key: x.part.Key, Signature: x.part.Signature}
+			joining := []*pdkg.Participant{fake}
+			if target == 3 {
+				joining = append(h.parts([]int{3}), fake)
+			}
+			n := 3 + len(joining)
+			t := &pdkg.ProposalTerms{BeaconID: beaconID, Threshold: uint32(minT(n)), Epoch: sp.raw.cur.Epoch + 1, Timeout: h.farTimeout(),
+				Leader: proto.Clone(leader.part).(*pdkg.Participant), SchemeID: h.w.sch.Name, BeaconPeriodSeconds: 30, CatchupPeriodSeconds: 5,
+				GenesisTime: timestamppb.New(h.gen), GenesisSeed: h.seed, Remaining: h.parts([]int{0, 1, 2}), Joining: joining}
+			h.packet(target, h.proposalPacket(t, x, v), "forged-proposal:near-miss-address "+v, "outsider")
+		}
+	}
+	// the genuine leader's proposal (with a joiner) is accepted afterwards
+	s := reshareSpec{leader: 0, remaining: []int{0, 1, 2}, joining: []int{3}, thr: 3}
+	_, prop := h.command(0, h.reshareCmd(s, ""), "cmd-reshare", "leader", false)
+	h.packet(1, prop, "proposal", "leader")
+	h.packet(3, prop, "proposal", "leader")
+	// near-miss senders on control packets over the stored terms
+	for _, v := range variants[:2] {
+		p := h.forged(1, "abort", leader, leader)
+		p.Metadata.Address = v
+		h.packet(1, p, "abort:near-miss-address "+v, "outsider")
+	}
+}
+
 // swapKey returns the genuinely signed proposal with the KEY of the k-th joiner replaced by the
 // attacker's (address, self-signature and the leader's packet signature untouched).
 func (h *hist) swapKey(p *pdkg.GossipPacket, k int) *pdkg.GossipPacket {
@@ -383,7 +549,7 @@ func (h *hist) directedBelowOldThreshold() {
 func (h *hist) directedExecSetup() {
 	h.fabricate([]int{0, 1, 2}, 2, 1)
 	leader := h.w.ids[0]
-	bad := &pdkg.Participant{Address: "127.0.0.1:9999", Key: []byte("not-a-point"), Signature: []byte("x")}
+	bad := &pdkg.Participant{Address: "nowhere.drand.test:9999", Key: []byte("not-a-point"), Signature: []byte("x")}
 	t := &pdkg.ProposalTerms{BeaconID: beaconID, Threshold: 3, Epoch: 2, Timeout: h.farTimeout(),
 		Leader: proto.Clone(leader.part).(*pdkg.Participant), SchemeID: h.w.sch.Name, BeaconPeriodSeconds: 30, CatchupPeriodSeconds: 5,
 		GenesisTime: timestamppb.New(h.gen), GenesisSeed: h.seed, Remaining: append(h.parts([]int{0, 1, 2}), bad), Joining: h.parts([]int{3})}
@@ -536,7 +702,7 @@ func Run(name, prop string) func(outDir string, seed int64, tier string) error {
 				specs = append(specs, spec{id: len(specs), kind: kind, seed: rng.Int63()})
 			}
 		}
-		for _, wk := range []string{"w-fresh-epoch", "w-left-panic", "w-key-subst", "w-nonleader-exec", "w-nil-leader", "w-unsigned-key", "w-member-epoch", "d-exec-setup", "d-shadow-joiner", "d-below-old-thr", "d-joiner-key-swap", "d-joiner-key-swap", "d-timeout-abandon"} {
+		for _, wk := range []string{"w-fresh-epoch", "w-left-panic", "w-key-subst", "w-nonleader-exec", "w-nil-leader", "w-unsigned-key", "w-member-epoch", "d-exec-setup", "d-shadow-joiner", "d-below-old-thr", "d-joiner-key-swap", "d-joiner-key-swap", "d-timeout-abandon", "d-concurrent", "d-concurrent", "d-concurrent", "d-near-miss-address"} {
 			add(wk, 1)
 		}
 		nGen, nFab, nKy, nSleep := 24, 44, 5, 4
@@ -599,6 +765,11 @@ func Run(name, prop string) func(outDir string, seed int64, tier string) error {
 				}
 				rep.Fail("C08-store-unreadable", "the DKG store can no longer decode a record the process wrote: "+r.unreadable,
 					map[string]interface{}{"history": r.spec.id, "kind": r.spec.kind, "seed": r.spec.seed, "trace": tr})
+			}
+			for _, f := range r.extra {
+				if strings.HasPrefix(f.Class, prop) {
+					rep.Fail(f.Class, f.What, f.Input)
+				}
 			}
 			for _, n := range r.cases {
 				r.w.monitor(rep, prop, r.spec.id, n)
